@@ -334,6 +334,20 @@ def _c20(prop, tier, seed, jobs, limit):
                                               'objects whose inferred hint depends on payload values, third-party containers: outside'])
 
 
+def _c07(prop, tier, seed, jobs, limit):
+    from . import c07
+    return run_hint_family(prop, tier, seed, jobs, limit, run_case=c07.run_case, cases=c07.cases(tier, seed),
+                           funcs=['beartype._check.forward.fwdresolve', 'beartype._check.forward.scope.fwdscopemake',
+                                  'beartype._check.forward.scope.fwdscopecls', 'beartype._check.forward.reference.fwdrefproxy',
+                                  'beartype._check.forward.reference._cls.fwdrefmeta', 'beartype._check.convert._convcoerce',
+                                  'beartype.peps._pep563'],
+                           extra_assumptions=['placements (module, method, nested-class method, closure, closure in method), forms '
+                                              '(string literal, from __future__ import annotations, name bound after the definition) and '
+                                              'hint texts are enumerated; the solver decides equivalence with the evaluated form over all objects and draws',
+                                              'forward-reference proxies are resolved through their real __instancecheck__ at encode time',
+                                              'the call-before-definition clause is a concrete observation; PEP 649/749 (Python >= 3.14) is outside'])
+
+
 def _simple(prop, tier, seed, jobs, limit):
     return run_hint_family(prop, tier, seed, jobs, limit)
 
@@ -387,6 +401,7 @@ RUNNERS = {
     'C02': _simple,
     'C03': _c03,
     'C06': _c06,
+    'C07': _c07,
     'C17': _c17,
     'C19': _c19,
     'C20': _c20,
